@@ -58,10 +58,11 @@ type freeRun struct {
 	executed map[int][]int
 	execCnt  map[[2]int]int
 	// timers
-	fired      map[int]int
-	cleared    map[int]bool // cleared on the loop thread (from a callback) before it fired
-	cbs        int
-	foreground bool // use StartInForeground (on its own goroutine) instead of Start
+	fired        map[int]int
+	cleared      map[int]bool // cleared on the loop thread (from a callback) before it fired
+	cbs          int
+	foreground   bool // use StartInForeground (on its own goroutine) instead of Start
+	elapsedCalls int32
 }
 
 func newFreeRun(kind, params string) *freeRun {
@@ -154,6 +155,7 @@ func (f *freeRun) install(vm *goja.Runtime) {
 	t00 := time.Now()
 	vm.Set("__now", func() float64 { return float64(time.Since(t00).Nanoseconds()) / 1e6 })
 	vm.Set("__elapsed", func(what string, want, got float64) {
+		defer atomic.AddInt32(&f.elapsedCalls, 1)
 		if got < want {
 			f.fail("free-timer-fired-early", fmt.Sprintf("setTimeout with delay %s ran %.3f ms after it was set (delay %.3f ms)", what, got, want))
 		}
@@ -565,8 +567,14 @@ func freeCount(r *lib.Rand) *freeRun {
 	if !f.sync("js timers set") || !f.sync("immediates ran") || !f.sync("second-level immediates ran") {
 		return f
 	}
-	if fracUsed { // the short timeout (at most 4 ms) has completed before the count is taken
-		time.Sleep(12 * time.Millisecond)
+	if fracUsed { // the short timeout (at most 4 ms) has completed before the count is taken (progress, not a deadline)
+		for w := 0; w < 3000 && atomic.LoadInt32(&f.elapsedCalls) == 0; w++ {
+			time.Sleep(time.Millisecond)
+		}
+		if atomic.LoadInt32(&f.elapsedCalls) == 0 {
+			f.fail("free-uncleared-timeout-never-ran", "a timeout of a few milliseconds set on a running loop did not run within 3 s")
+			return f
+		}
 		if !f.sync("short timeout ran") {
 			return f
 		}
@@ -1082,9 +1090,12 @@ func freeChain(r *lib.Rand) *freeRun {
 			f.fail("free-callback-while-stopped", "the chain kept running after Stop() had returned")
 		}
 		f.start()
-		time.Sleep(3 * time.Millisecond)
+		// progress, not a deadline: on a loaded machine the loop goroutine may not be scheduled within milliseconds
+		for w := 0; w < 3000 && atomic.LoadInt32(&links) == before; w++ {
+			time.Sleep(time.Millisecond)
+		}
 		if atomic.LoadInt32(&links) == before {
-			f.fail("free-accepted-function-never-ran", "the chain did not resume after the restart")
+			f.fail("free-accepted-function-never-ran", "the chain did not resume within 3 s of the restart")
 		}
 		if mode == 1 {
 			f.mu.Lock()
